@@ -20,7 +20,8 @@ VARIABLES
   bridge,       \* opaque digest of the bitcoin module store (last observed)
   bridgeDirty,  \* something in this block may legitimately have changed bridge state
   acceptedLog,  \* history: vote ids accepted so far (C02)
-  tip, curKey   \* the two bridge values the kind-specific checks of the simple voted kinds depend on
+  tip, curKey,  \* the two bridge values the kind-specific checks of the simple voted kinds depend on
+  saved         \* the state at the beginning of a multi-message transaction (restored if the transaction fails)
 
 tvars == << l, now, height, bridge, bridgeDirty, acceptedLog, tip, curKey >>
 B(x) == x \in Bind
@@ -51,6 +52,7 @@ TInit ==
   /\ proposer = (CHOOSE m \in Members : TRUE) /\ voters = << >> /\ epoch = 0 /\ lastElected = 0 /\ accepted = TRUE
   /\ rec = [m \in Members |-> NoRec] /\ onQ = << >> /\ offQ = << >> /\ seq = 0 /\ randao = << >>
   /\ pubkeys = {} /\ accounts = {} /\ halted = FALSE
+  /\ saved = << >>
 
 (* init: a (new) chain starts from the logged state; also separates concatenated runs *)
 TraceInitEv ==
@@ -181,8 +183,31 @@ TraceReimport ==
      /\ StateFrom(st)
   /\ UNCHANGED << now, height, bridge, bridgeDirty, acceptedLog, tip, curKey >>
 
-TNext == TraceReimport \/ TraceInitEv \/ TraceBegin \/ TraceEl \/ TraceVote \/ TraceVerify \/ TraceNewVoter \/ TraceAccept
-         \/ TraceNonVoted \/ TraceOther \/ TraceEnd
+TNext0 == TraceReimport \/ TraceInitEv \/ TraceBegin \/ TraceEl \/ TraceVote \/ TraceVerify \/ TraceNewVoter \/ TraceAccept
+          \/ TraceNonVoted \/ TraceOther \/ TraceEnd
+
+(* A transaction with several messages is all-or-nothing: `txbegin`, then one event per message that was executed (each with  *)
+(* its own verdict, explained by the same actions as above - the messages run one after the other on the state the previous   *)
+(* ones left), then `txend`: if the transaction failed (some message did), EVERYTHING its earlier messages did is undone.     *)
+Snapshot == [ rv |-> << proposer, voters, epoch, lastElected, accepted, rec, onQ, offQ, seq, randao, pubkeys, accounts, halted >>,
+              al |-> acceptedLog, bd |-> bridgeDirty, tip |-> tip, ck |-> curKey ]
+TraceTxBegin ==
+  /\ IsEvent("txbegin")
+  /\ saved' = Snapshot
+  /\ UNCHANGED << rvars, now, height, bridge, bridgeDirty, acceptedLog, tip, curKey >>
+TraceTxEnd ==
+  /\ IsEvent("txend")
+  /\ saved # << >>
+  /\ IF Ev.ok
+       THEN UNCHANGED << rvars, bridgeDirty, acceptedLog, tip, curKey >>
+       ELSE /\ proposer' = saved.rv[1] /\ voters' = saved.rv[2] /\ epoch' = saved.rv[3] /\ lastElected' = saved.rv[4]
+            /\ accepted' = saved.rv[5] /\ rec' = saved.rv[6] /\ onQ' = saved.rv[7] /\ offQ' = saved.rv[8] /\ seq' = saved.rv[9]
+            /\ randao' = saved.rv[10] /\ pubkeys' = saved.rv[11] /\ accounts' = saved.rv[12] /\ halted' = saved.rv[13]
+            /\ acceptedLog' = saved.al /\ bridgeDirty' = saved.bd /\ tip' = saved.tip /\ curKey' = saved.ck
+  /\ saved' = << >>
+  /\ UNCHANGED << now, height, bridge >>
+
+TNext == (TNext0 /\ UNCHANGED saved) \/ TraceTxBegin \/ TraceTxEnd
 
 Reached == PrintT(<<"TRACE_REACHED", TLCGet("stats").diameter - 1, Len(Trace)>>)
 
